@@ -1,6 +1,6 @@
 """C02: exotic cells, level masks, per-level hashes, Merkle pruning invariance."""
 from ..gen import cells as G
-from ..translate import arith
+from ..translate import arith, cellctor
 from .C01 import cmp_obs, spec_obs
 
 SPEC = dict(
@@ -11,7 +11,8 @@ SPEC = dict(
         technique='Lean 4 refinement proof (hand model) + differential correspondence with the library + source-regenerated arithmetic lemmas',
     ),
     translators=[('exotic.py LevelMask->Generated/LevelMask.lean', arith.regenerator('LevelMask')),
-                 ('cell.py d1/d2/pruned offsets->Generated/CellArith.lean', arith.regenerator('CellArith'))],
+                 ('cell.py d1/d2/pruned offsets->Generated/CellArith.lean', arith.regenerator('CellArith')),
+                 ('cell.py Cell.__init__/resolve_mask/calculate_hashes/get_hash/get_depth->Generated/CellCtor.lean', cellctor.regenerate)],
     design_ref='DESIGN.md §6 C02',
     rule='trees with pruned branches of all 7 masks, library cells, Merkle proofs/updates nested up to level 3, random pruning sets; '
          'each node compared library vs Lean model vs Lean spec vs Python spec; plus a malformed stream (wrong sizes/tags/ref counts) '
@@ -184,12 +185,26 @@ def pruned_family(ctx, mask, tag):
     check_dag(ctx, db.nodes, tag)
 
 
+def src_ctor_search(ctx):
+    """Search mode only: the cells on which the REGENERATED constructor (Generated/CellCtor.lean) and the hand model differ
+    (evaluated by Lean on the validation DAGs: every type, every pruned mask under ordinary / Merkle parents, malformed cells,
+    depth limits), each handed to the oracle.  True = a concrete failing input was found."""
+    n0 = len(ctx.failures)
+    found = cellctor.diff_dags(ctx, cellctor.validation_dags())
+    found.sort(key=lambda f: sum(len(n[1]) for n in f[1]))
+    for tag, nodes, idx in found[:40]:
+        check_dag(ctx, nodes[:max(idx) + 1], f'src-ctor-{tag}', routes=('ctor',), boc=False)
+        if len(ctx.failures) > n0 + 3:
+            break
+    return len(ctx.failures) > n0
+
+
 def src_search(ctx):
     """Search mode only: the points where a regenerated definition (Generated/LevelMask.lean, CellArith.lean) differs from
     the function it is proved equal to, turned into exotic trees for the oracle.  True = a concrete failing input was found."""
     found = arith.search_points(ctx, ['LevelMask', 'CellArith'])
     if not found:
-        return False
+        return src_ctor_search(ctx)
     n0 = len(ctx.failures)
     masks = set()
     for name in ('lmLevel', 'lmHashIndex', 'lmApply', 'lmIsSignificant'):
@@ -208,7 +223,7 @@ def src_search(ctx):
         masks.add(1)        # the family contains Merkle cells (exotic, and of mask 0 above a level-1 branch)
     for m in sorted(masks):
         pruned_family(ctx, m, f'src-pruned-mask{m}')
-    return len(ctx.failures) > n0
+    return len(ctx.failures) > n0 or src_ctor_search(ctx)
 
 
 def run(ctx):
